@@ -65,10 +65,18 @@ def local_scaling(case, ctx):
     rdl = scale_rho_data(rd, lam)
     spec = dict(case["settings"], normalize=True)
 
+    # s = sqrt(sigma) / (b rho^(4/3) + 1e-16) is not scale invariant: relative to the exact form s^2 is off by
+    # 2e-16 / (b rho^(4/3)), at rho and at lambda^3 rho (9e-11 at 1.5e-5, the lowest scaled density the generator reaches
+    # with lambda = 0.31).  A factor 10 covers what the features and normalisers make of it (|power| <= 2; alpha divides by
+    # tau - tau_W >= 0.2 tau_W).  The fixed 1e-10 alone was exceeded by 9 % in the thorough tier at seed 4.
+    b_ = 2 * (3 * np.pi**2) ** (1.0 / 3)
+    rho_low = float(min(np.min(rd[:, 0]), np.min(rdl[:, 0])))
+    reg = 10.0 * 2e-16 / (b_ * rho_low ** (4.0 / 3))
+
     def relclose(got, want, sig, rtol=1e-10, **kw):
         got, want = np.asarray(got, float), np.asarray(want, float)
         den = np.maximum(np.abs(want), np.abs(got)) + 1e-300
-        ctx.close((got - want) / den, np.zeros_like(den), sig, rtol=0, atol=rtol, **kw)
+        ctx.close((got - want) / den, np.zeros_like(den), sig, rtol=0, atol=rtol + reg, **kw)
 
     # (3) needs the settings; NotImplementedError from the recommended normalisers is a documented outcome
     from ciderpress.dft import settings as S
